@@ -167,7 +167,7 @@ fn part_expressions(max_tokens: usize, max_chars: usize, st: &mut Stats) {
     }
     go(&mut vec![], &toks, max_tokens, st);
     // raw character strings that stress the RON string encoding around the expression text
-    let chars = ['"', '\\', 'a', '1', '\n', ' ', 'ä', '😀', '/', '*', '\'', '\t'];
+    let chars = ['"', '\\', 'a', '1', '\n', ' ', 'ä', '😀', '/', '*', '\'', '\t', '-', '+', '.', 'e', 'x', '0', '(', ')', ',', ';', '=', '!', '&'];
     fn goc(cur: &mut String, len: usize, chars: &[char], max: usize, st: &mut Stats) {
         check_expression(cur, st);
         st.states += 1;
@@ -410,7 +410,7 @@ fn write_outputs(tier: &str, seed: u64, st: &Stats, wall: f64) -> i32 {
         st.states,
         st.transitions,
         st.transitions,
-        esc("(a) depth-first search over every token sequence up to the tier's length over a 14-token alphabet and every character string up to the tier's length over 12 hostile characters (quotes, backslashes, newline, multi-byte), each encoded as a RON string with ron::ser::to_string and decoded as Node: Ok trees must equal build_operator_tree(s), Err messages must equal error.to_string(); (b) every HashMapContext reachable by API histories up to the tier's depth over {set_value of 3 names x a value pool of all six types incl. i64 extremes, signed zero, subnormal, infinities, NaN, nested/empty tuples, hostile strings; clear_variables; set_function; builtin switch on/off; expression assignments}: from_str(to_string(c)) must have the same sorted variable map (floats by bits), the same switch and resolve no user function; plus every pool value as a bare Value. A state is a token/character prefix or a context history; a transition appends a token or applies an operation; every state is executed on the implementation. Non-trivial = sources of >= 3 bytes and contexts with >= 2 variables (each enumerated once)"),
+        esc("(a) depth-first search over every token sequence up to the tier's length over a 14-token alphabet and every character string up to the tier's length over 25 characters (quotes, backslashes, newline, multi-byte, signs, digits, dot, e, x, punctuation), each encoded as a RON string with ron::ser::to_string and decoded as Node: Ok trees must equal build_operator_tree(s), Err messages must equal error.to_string(); (b) every HashMapContext reachable by API histories up to the tier's depth over {set_value of 3 names x a value pool of all six types incl. i64 extremes, signed zero, subnormal, infinities, NaN, nested/empty tuples, hostile strings; clear_variables; set_function; builtin switch on/off; expression assignments}: from_str(to_string(c)) must have the same sorted variable map (floats by bits), the same switch and resolve no user function; plus every pool value as a bare Value. A state is a token/character prefix or a context history; a transition appends a token or applies an operation; every state is executed on the implementation. Non-trivial = sources of >= 3 bytes and contexts with >= 2 variables (each enumerated once)"),
         samples,
         counters,
         [
@@ -488,10 +488,10 @@ fn main() {
     let mut st = Stats::default();
     let r = catch_unwind(AssertUnwindSafe(|| {
         if tier == "quick" {
-            part_expressions(5, 4, &mut st);
+            part_expressions(5, 3, &mut st);
             part_contexts(2, &mut st);
         } else {
-            part_expressions(6, 5, &mut st);
+            part_expressions(6, 4, &mut st);
             part_contexts(3, &mut st);
         }
     }));
